@@ -123,12 +123,85 @@ def replay_obj(c, probs):
     return o
 
 
+MACRO_PREFIX = "#stage(macro)\nfn zz_staged_identity(x){ x }\n#stage(main)\n"
+
+
+def real_only_stream(ctx, known, times):
+    """Forms OUTSIDE the Lean fragment (`match`, records, arrays, modules, type declarations, …): staged source against
+    its hand-written expansion on the real compiler only, both back ends.
+      * corpus/C09/*.json entries marked `real_only` (minimised past failures: `match` in the main stage, a file that ends in
+        a macro-stage section, …);
+      * every shipped source that runs: the file with a macro-stage section put in front of it — the whole main stage is then
+        quoted, encoded by translate_code, rebuilt by the combinators on the macro VM and compiled again — against the file
+        as it is (its own manual expansion). Compiled under the file's own path.
+    A pair whose plain side runs must run staged, with the same channels and bit-identical samples. Returns the coverage record."""
+    import corpusmut
+    pairs = []
+    cdir = os.path.join(VERIF, "corpus", "C09")
+    for fn in sorted(os.listdir(cdir)) if os.path.isdir(cdir) else []:
+        if fn.endswith(".json"):
+            r = json.load(open(os.path.join(cdir, fn)))
+            if r.get("real_only"):
+                pairs.append(dict(id="corpus:" + fn[:-5], file="corpus/C09/" + fn, src=r["src"], man_src=r["manual_src"], path=None,
+                                  times=r.get("times", times), inputs=r.get("inputs", [])))
+    repo = REPO if os.path.isdir(os.path.join(REPO, "lib")) else "/repo"
+    for f in corpusmut.shipped_files(repo):
+        src = open(f, encoding="utf-8", errors="replace").read()
+        pairs.append(dict(id="file:" + f, file=os.path.relpath(f, repo), src=MACRO_PREFIX + src, man_src=src, path=f, times=4,
+                          inputs=[[0.5]] * 4))
+    jobs = []
+    for c in pairs:
+        for side, text in (("s", c["src"]), ("m", c["man_src"])):
+            jobs.append({"id": c["id"] + "|" + side, "src": text, "sx": None, "times": c["times"], "inputs": c["inputs"], "path": c["path"]})
+    res = pc.run_batch(jobs, want_model=False, nshards=NCPU, timeout=300)
+    listed = {f: k for k in known for f in k.get("files", [])}
+    seen, bad, st = set(), [], collections.Counter()
+    for c in pairs:
+        s, m = res[c["id"] + "|s"], res[c["id"] + "|m"]
+        if not (m[0].startswith("ok") and m[1].startswith("ok") and m[0].split(" ")[2] != "0"):
+            st["manual_side_does_not_run(skipped)"] += 1
+            continue
+        st["compared"] += 1
+        why = None
+        for i, be in ((0, "vm"), (1, "wasm")):
+            if not s[i].startswith("ok"):
+                why = why or f"staged-rejected-but-manual-expansion-runs({be}): {s[i][:140]}"
+            elif pc.norm_impl(s[i]) != pc.norm_impl(m[i]):
+                why = why or f"staged-differs-from-manual-expansion({be})"
+        if why is None:
+            st["agree"] += 1
+            if pc.nontrivial(m[0]):
+                st["agree_nontrivial"] += 1
+        elif c["file"] in listed:
+            st["known-finding"] += 1
+            seen.add(c["file"])
+        else:
+            bad.append((c, why, s, m))
+    for f, k in listed.items():
+        if f in seen:
+            ctx.known_finding(f"{k['id']} {k['what']} [still fails: {f} behind a macro-stage prefix]")
+        else:
+            ctx.notes.append(f"known finding {k['id']}: {f} behind a macro-stage prefix no longer fails")
+    if bad:
+        bad.sort(key=lambda b: len(b[0]["src"]))
+        c, why, s, m = bad[0]
+        ctx.violation(f"staged program and its manual expansion disagree on the real compiler ({why}) in {len(bad)} real-only pairs: "
+                      + ", ".join(b[0]["file"] for b in bad[:10]) + f"; smallest:\n{c['src'][:1500]}",
+                      {"kind": "real-only", "src": c["src"], "manual_src": c["man_src"], "path": c["path"], "file": c["file"], "times": c["times"],
+                       "inputs": c["inputs"], "why": why, "vm_s": s[0][:1200], "wasm_s": s[1][:1200], "vm_m": m[0][:1200], "wasm_m": m[1][:1200],
+                       "files": [b[0]["file"] for b in bad]})
+    return dict(st, pairs=len(pairs), failures=len(bad),
+                rule="staged (corpus pair / shipped file behind `#stage(macro) fn …  #stage(main)`) vs manual expansion (the file as it is), "
+                     "own path, VM + WASM, 4 samples; compared when the manual side runs with >= 1 channel on both back ends")
+
+
 def main(ctx, args):
     ctx.assumptions += [
         "Model/Stage.lean is a hand port of convert_macroexpand, convert_self, translate_staging.rs and the combinators of codegen_combinators.rs; its stage-0 evaluator stands for the VM run of compile_and_execute_stage0 (pure fragment: numbers, code, functions, tuples, arrays)",
         "types are not modelled (type-id arguments of the lambda/letrec combinators are placeholders); literals carry the bits of their value",
         "the tree of the real expansion is read (a) from the compiler's own trace line `ast after stage-0 execution` and (b) from a replica of compile_and_execute_stage0 built from the public API; both must print the same text",
         "the meaning of an expanded tree is given by Model/Core.lean through the (unverified, exercised) reader Model/StageIO.lean::toCoreProg",
+        "forms outside the Lean fragment (match, records, arrays, modules, type declarations) are compared on the real compiler only: corpus pairs marked real_only and every shipped source behind a macro-stage prefix against the source as it is",
         "known findings steer the generator: F2, F3, F11, F17 (no `if` inside tuple components), (S1, the block-scope leak, is repaired in /repo e02acb0: programs that bind one name twice are compared with the model like all others)",
     ]
     known = load_known("C09")
@@ -145,6 +218,16 @@ def main(ctx, args):
     times = 12 if ctx.tier == "quick" else 32
     gstats, stats = collections.Counter(), collections.Counter()
     cases = []
+    if args.replay and json.load(open(args.replay)).get("kind") == "real-only":
+        r = json.load(open(args.replay))
+        jobs = [{"id": side, "src": r[key], "sx": None, "times": r.get("times", 4), "inputs": r.get("inputs", []), "path": r.get("path")}
+                for side, key in (("s", "src"), ("m", "manual_src"))]
+        res = pc.run_batch(jobs, want_model=False, nshards=1)
+        log(f"  staged: {res['s'][0][:200]} | {res['s'][1][:200]}\n  manual: {res['m'][0][:200]} | {res['m'][1][:200]}")
+        if [pc.norm_impl(x) for x in res["s"][:2]] != [pc.norm_impl(x) for x in res["m"][:2]]:
+            ctx.violation("staged program and its manual expansion disagree on the real compiler (real-only pair)", dict(r, vm_s=res["s"][0][:1200]))
+        ctx.coverage.update({"evaluations": 1})
+        ctx.finish("proof")
     if args.replay:
         r = json.load(open(args.replay))
         cases = [dict(id="replay", sp=None, src=r["src"], sx=r["sx"], man_src=r["manual_src"], man_sx=r.get("manual_sx"), inputs=r.get("inputs", []),
@@ -154,6 +237,8 @@ def main(ctx, args):
         for fn in sorted(os.listdir(cdir)) if os.path.isdir(cdir) else []:
             if fn.endswith(".json"):
                 r = json.load(open(os.path.join(cdir, fn)))
+                if r.get("real_only"):
+                    continue        # no S-expression for the model: compared on the real compiler only (real_only_stream)
                 cases.append(dict(id="corpus:" + fn[:-5], sp=None, src=r["src"], sx=r["sx"], man_src=r["manual_src"], man_sx=r.get("manual_sx"),
                                   inputs=r.get("inputs", []), times=r.get("times", 8), backends=r.get("backends", "vm,wasm"), dup=r.get("dup", False), nmacros=1))
         for prof, n, be in (QUICK if ctx.tier == "quick" else THOROUGH):
@@ -187,6 +272,8 @@ def main(ctx, args):
             nontriv.add(hash(c["src"]))
             if len(samples) < 3 and stats["evaluations"] % 211 == 17:
                 samples.append({"src": c["src"][:1500], "manual_src": c["man_src"][:1000], "output_bits": r["vm_s"][:160]})
+    real_only = real_only_stream(ctx, known, times) if not args.replay else {}
+    stats["evaluations"] += real_only.get("compared", 0)
     # known findings: replay the listed inputs
     for k in known:
         if k.get("kind") == "staged-rejected":
@@ -285,5 +372,6 @@ def main(ctx, args):
         "outcome_classes": {k: v for k, v in stats.items() if k.startswith(("staged_", "manual_", "dup_"))},
         "staging_contexts_generated": {k: v for k, v in gstats.items() if k.startswith("stage_")},
         "construct_counts": {k: v for k, v in gstats.items() if not k.startswith("stage_")},
+        "real_only_pairs(forms outside the Lean fragment)": real_only,
     })
     ctx.finish("proof")
